@@ -301,6 +301,7 @@ class Budget(NotEvaluable):
 
 CLEAR = mpf('1e-9')
 HEAVY = ('I', 'L', 'S', 'E')
+EXPENSIVE = ('I', 'L', 'S', 'E', 'D', 'II')
 MEMO = {}
 MEMO_CAP = 30000
 
@@ -944,7 +945,7 @@ def _structural(reason):
 
 
 def judge(before, after, conds=(), defs=None, deps=None, rng=None, budget=400000, max_draws=4,
-          premises=(), per_eval=None):
+          premises=(), per_eval=None, min_draws=None):
     """Compare two shadows under conditions.
 
     Returns dict(verdict='held'|'violated'|'inconclusive', what=..., reason=..., draws=[...]).
@@ -1006,7 +1007,14 @@ def judge(before, after, conds=(), defs=None, deps=None, rng=None, budget=400000
     closed = not fvs
     draws, nH, nV, nI, nD = [], 0, 0, 0, 0
     what = None
-    ndraw = 1 if closed else max_draws
+    cheap = not (contains_kind(before, EXPENSIVE) or contains_kind(after, EXPENSIVE))
+    if min_draws is None:
+        # identities that hold on a part of the parameter domain only (atan(tan(x)) = x) need more than two draws;
+        # for expressions without integrals / limits / sums / derivatives extra draws cost nothing
+        min_draws = 5 if cheap else 2
+    if cheap:
+        max_draws = max(max_draws, min_draws + 2)
+    ndraw = 1 if closed else max(max_draws, min_draws)
     redraws = 0
     i = 0
     stop = False
@@ -1107,7 +1115,7 @@ def judge(before, after, conds=(), defs=None, deps=None, rng=None, budget=400000
             rec.update(status='I', reason='difference within error band')
             nI += 1
         draws.append(rec)
-        if nV >= 2 or (nH >= 2 and nV == 0):
+        if nV >= 2 or (nH >= max(2, min_draws) and nV == 0):
             break
     need = 1 if closed else 2
     if nV >= need:
